@@ -42,6 +42,25 @@ class FakeUuid:
     uuid4 = uuid1
 
 
+def _pristine_mutable_defaults():
+    """Process-global state hidden in mutable default arguments (bptk.run_scenarios(series_names={}) is MUTATED by the call, and
+    the REST /run handler relies on the default): emptied at the start of every simulated run, so that the number of source
+    lines a request executes - the scheduler's pre-emption points - does not depend on what the process did before."""
+    import inspect
+    import importlib
+    mod = importlib.import_module("BPTK_Py.bptk")
+    for cls in [getattr(mod, "bptk", None)]:
+        if cls is None:
+            continue
+        for f in vars(cls).values():
+            if inspect.isfunction(f):
+                for d in (f.__defaults__ or ()):
+                    if isinstance(d, dict):
+                        d.clear()
+                    elif isinstance(d, list):
+                        del d[:]
+
+
 @contextlib.contextmanager
 def installed(clock=None, uuid=None, fs=None, threads=None, quiet=True, global_thread=False):
     """threads: None (leave real threads), "sched" (SimThread under the baton scheduler),
@@ -55,6 +74,7 @@ def installed(clock=None, uuid=None, fs=None, threads=None, quiet=True, global_t
     import BPTK_Py.logger.logger as logmod
 
     s = Seams()
+    _pristine_mutable_defaults()
     try:
         if clock is not None:
             fdm = fake_datetime_module(clock)
